@@ -217,6 +217,12 @@ Two entries added for `Operation.str` (profiles `raised.py`):
   value that the object is (the case has been established by the preceding test; what the template yields for the
   other cases is never looked at by a tie theorem that holds for every object).
 
+Added for `WeightedDefuzzifier.infer_type` (profiles `wave5x.py`; primitive in `Base/PySet.lean`): a set comprehension
+`{e for x in l}` is the list of the *distinct* values of the list comprehension with the same parts, in the order of their
+first occurrence (`Py.distinct`; the element may raise or be a recursive call, exactly as in a list comprehension).  A set
+kept this way is faithful for what does not depend on the iteration order of a Python set - `len`, truth value, `in`;
+every other use of it (iteration, `s.pop()`) must be named by an external of the profile, which has to say what it means.
+
 Anything outside the subset raises `Untranslatable` - the tie is then reported as broken (never silently skipped).
 """
 from __future__ import annotations
@@ -969,6 +975,10 @@ class Fn:
                 # an element that can raise: evaluated left to right, the first exception ends the comprehension
                 return self.bind1(it, lambda x: f"(List.mapM (fun ({v} : {ety}) => {elt.term}) {src(x)})", f"List {paren(elt.ty)}", partial=True)
             return self.bind1(it, lambda x: f"(List.map (fun ({v} : {ety}) => {elt.term}) {src(x)})", f"List {paren(elt.ty)}")
+        if isinstance(node, ast.SetComp):
+            # the distinct values of the list comprehension with the same parts, in the order of their first occurrence
+            lst = self.ce(ast.ListComp(elt=node.elt, generators=node.generators))
+            return self.bind1(lst, lambda x: f"(Py.distinct {x})", lst.ty)
         if isinstance(node, ast.DictComp):
             g = node.generators[0]
             tg = g.target
